@@ -14,7 +14,11 @@ def run(tier, replay=None):
               "segments of the same run and scte35_<v> for v outside {1,2,3}; assets = bundled 2/6/8 s + generated 2.002 s, 0.48 s, "
               "irregular, alternating + own layouts 1, 1.92, 3, 3.84, 4(+1.5), 5, 7, 7.5, 9, 9.6, 10 s and 9.5/3.5/5/10 s mixed; epochs = stream "
               "start, first 33-bit PTS wrap (26.5 h), wall clock 2025, a PTS wrap in 2025; start_ in {0, 1699999020} (multiples of 60) and "
-              "{1000, 1700000017}; distinct = distinct (asset, N, start_, mode, epoch)")
+              "{1000, 1700000017}; plus scte35_N combined with every other documented option (annexI with the query on the requests, periods, "
+              "periods+continuous, patch, timesubsstpp/wvtt incl. the generated subtitle segments, eccp_cenc/cbcs, drm_<package>, segtimeline, "
+              "segtimelinenr, ato, ato+chunkdur (chunked bodies), tsbd, snr, mup, spd, utc, ltgt, sidx; either order of the URL parts): quick "
+              "each option singly on one asset, thorough on three assets and all pairs; 5-minute runs, MPD at both ends of the run; "
+              "distinct = distinct (asset, N, start_, mode, epoch, options)")
     c.assumptions = [
         "which end of the carrying segment's interval is closed is left open by the text: a segment [s,e) may carry the event for T iff s <= T-7 <= e; "
         "exactly-once is judged on the partition by a contiguous run (obligations only for announce instants strictly inside the run)",
@@ -38,7 +42,7 @@ def run(tier, replay=None):
         jobs += [("Scte35_MC", "Scte35_alt_quick.cfg", ok), ("Scte35_MC", "Scte35_thorough.cfg", ok), ("Scte35_MC", "Scte35_thirds_thorough.cfg", ok), ("Scte35_MC", "Scte35_fix.cfg", ok),
                  ("Scte35_MC", "Scte35_impl_small.cfg", dict(ok, workers=2))]
     pool = ThreadPoolExecutor(max_workers=1)
-    mfut = pool.submit(c.models, jobs, 2 if not thorough else 3)
+    mfut = pool.submit(c.models, jobs, 3)
 
     drive = vlib.build_harness(cmd="c13")
     shards = 6 if thorough else 2
@@ -82,7 +86,7 @@ def run(tier, replay=None):
                 for k, v in d.items():
                     f.setdefault(k, v)
             h = hdr_at.get(f["line"]) or {}
-            for k in ("asset", "pm", "ast", "astmod", "mode", "epoch", "TS", "dur", "vod0", "cfg"):
+            for k in ("asset", "pm", "ast", "astmod", "mode", "epoch", "TS", "dur", "vod0", "cfg", "opts", "chunked"):
                 f.setdefault(k, h.get(k))
             f["trace"] = trace.split("/")[-1]
             c.add_failure(f)
@@ -100,7 +104,10 @@ def run(tier, replay=None):
     if grid["scenarios"] != st["scenarios"]:
         raise MachineryError(f"{grid['scenarios']} scenario verdicts printed by the trace specification for {st['scenarios']} scenarios")
     # non-vacuity of the driver
-    for k in ("emsgs", "other_rep_segments", "rejections", "runs_with_pts_wrap", "mpds"):
+    if st["options_covered"] < st["options_single"]:
+        raise MachineryError(f"vacuity: only {st['options_covered']} of {st['options_single']} options were combined with scte35 "
+                             f"({st['combinations_refused_without_scte35']} combinations refused by the server without scte35)")
+    for k in ("emsgs", "other_rep_segments", "rejections", "runs_with_pts_wrap", "mpds", "option_scenarios"):
         if not st.get(k):
             raise MachineryError(f"vacuity: driver statistic {k} = {st.get(k)}")
     if not grid["other_start"] or not grid["start_multiple_of_60"]:
@@ -117,4 +124,7 @@ def run(tier, replay=None):
     c.extra["runs_straddling_a_pts_wrap"] = st["runs_with_pts_wrap"]
     c.extra["assets"] = st["assets"]
     c.extra["minute_grid"] = grid
+    c.extra["scenarios_scte35_with_other_options"] = st["option_scenarios"]
+    c.extra["option_combinations_covered"] = st["options_covered"]
+    c.extra["combinations_refused_without_scte35_skipped"] = st["combinations_refused_without_scte35"]
     return c.finish()
